@@ -1,7 +1,7 @@
 (* End to end over the two hand models and the regenerated codecs: the body the
    frontend side writes for a call, fed to the request server's dispatch, makes the
    handler see exactly the caller's values - for all values that fit the fields. *)
-From VV Require Import Base.Bits Base.Rt Base.Val Gen.GenConsts Gen.GenLayout Gen.GenFns Model.Transport Model.BeServer Proofs.CodecProofs.
+From VV Require Import Base.Bits Base.Rt Base.Val Gen.GenConsts Gen.GenLayout Gen.GenFns Gen.GenVrfd Model.Transport Model.BeServer Proofs.CodecProofs.
 From Coq Require Import ZArith ZifyBool ZifyNat ZifyN.
 Open Scope string_scope.
 Open Scope list_scope.
@@ -166,14 +166,14 @@ Theorem set_vring_fd_end_to_end cfg s o code name idx f fl :
 Proof.
   intros Hc Hi Hfl.
   assert (Hv : vring_fd_request (VhostUserU64_write {| VhostUserU64_value := idx |}) (Some [f]) = ROk (idx, Some f)).
-  { unfold vring_fd_request. rewrite u64_body_roundtrip by (cbn; lia). cbn [VhostUserU64_value take_single].
+  { unfold vring_fd_request, vrf_has_fd, vrf_reject, vrf_index. rewrite u64_body_roundtrip by (cbn; lia). cbn [VhostUserU64_value take_single].
     assert (Hl : N.land idx 256 = 0).
     { apply N.bits_inj_0. intros n. rewrite N.land_spec.
       destruct (N.eq_dec n 8) as [->|Hn].
       - assert (Hb : N.testbit idx 8 = false) by (apply N.bits_above_log2; destruct (N.eq_dec idx 0) as [->|Hz]; [reflexivity|]; apply N.log2_lt_pow2; lia).
         rewrite Hb. reflexivity.
       - change 256 with (2 ^ 8). rewrite N.pow2_bits_false by congruence. apply Bool.andb_false_r. }
-    rewrite Hl. cbn [N.eqb andb orb negb o_is_none o_is_some]. unfold cast. rewrite N.mod_small by lia. reflexivity. }
+    rewrite Hl. cbn [N.eqb andb orb negb o_is_none o_is_some]. change (2 ^ 8) with 256. rewrite N.mod_small by lia. reflexivity. }
   unfold dispatch.
   destruct Hc as [[-> ->] | [[-> ->] | [-> ->]]];
   match goal with |- context [VhostUserMsgHeader_request (VhostUserMsgHeader_new R ?c fl 8)] =>
